@@ -416,7 +416,7 @@ std::unique_ptr<Execution> execute(const Scenario& sc) {
         if (next < 0 || next > sc.end) break;
         w.log(Ev::idle, (int)out.idle_points);
         if (w.has_events() && w.next_event_time() <= next) w.fire_next();
-        else verif::g_now_ns = next;
+        else { verif::g_now_ns = next; if (out.timer_instants.size() < 400) out.timer_instants.push_back(next); }
     }
     // an async_disconnect still in flight at the end of the script is allowed its 5 s
     vt saved_end = sc.end;
